@@ -308,7 +308,7 @@ impl Check for Weighted {
         "weighted-rules"
     }
     fn rule(&self) -> String {
-        "Gauss-Laguerre against k! and 1/(1-a), Gauss-Hermite against Gaussian moments and sqrt(pi) e^{-b^2/4}, Gauss-Chebyshev first/second kind against the double-factorial moments and pi I_0(a), pi I_1(a)/a; every monomial degree the rule sequence integrates exactly x tolerances; signature = (routine, kind, outcome)".into()
+        "Gauss-Laguerre against k! and 1/(1-a), Gauss-Hermite against Gaussian moments and sqrt(pi) e^{-b^2/4}, Gauss-Chebyshev first/second kind against the double-factorial moments and pi I_0(a), pi I_1(a)/a; low-degree monomials, and anchored high-degree polynomials 1 + x (+ x^2) + x^d / moment_d up to the degree the rule sequence integrates exactly, x tolerances; signature = (routine, kind, outcome)".into()
     }
     fn points(&self, t: Tier) -> Vec<WPt> {
         let mut v = vec![];
@@ -330,6 +330,20 @@ impl Check for Weighted {
                     }
                     v.push(WPt { routine, kind: 1, k: 0, a, tol });
                 }
+                // anchored high-degree polynomials 1 + x (+ x^2) + x^d / moment_d: the low-degree part keeps the first
+                // rules from agreeing by accident, the top term needs the high rules of the sequence
+                if tol <= 1e-5 && tol >= 1e-9 {
+                    let ds: Vec<u32> = match routine {
+                        0 => (7..=19).collect(),
+                        // (beyond these degrees the top term is invisible to the first rules, the low-degree part has
+                        // converged and the two-consecutive-agreement rule stops early: outside the reliable class)
+                        1 => vec![10, 14, 20],
+                        _ => vec![12, 20, 40],
+                    };
+                    for d in ds {
+                        v.push(WPt { routine, kind: 2, k: d, a: 0.0, tol });
+                    }
+                }
             }
         }
         v
@@ -338,7 +352,27 @@ impl Check for Weighted {
         let mut o = Outcome::new();
         let subj = format!("integrate::{}", WEIGHTED[p.routine]);
         // normalise so that the exact answer is O(1)
+        let gamma_half = |k: u32| -> f64 {
+            let mut g = std::f64::consts::PI.sqrt();
+            let mut j = 1.0;
+            while j < k as f64 {
+                g *= j / 2.0;
+                j += 2.0;
+            }
+            g
+        };
         let (exact_raw, f): (f64, Box<dyn Fn(f64) -> f64>) = match (p.routine, p.kind) {
+            (0, 2) => {
+                let m = (1..=p.k).fold(1.0, |r, i| r * i as f64);
+                (3.0, Box::new(move |x: f64| 1.0 + x + x.powi(p.k as i32) / m))
+            }
+            (1, 2) => {
+                let m = gamma_half(p.k);
+                let sp = std::f64::consts::PI.sqrt();
+                (sp + sp / 2.0 + 1.0, Box::new(move |x: f64| 1.0 + x * x + x.powi(p.k as i32) / m))
+            }
+            (2, 2) => (std::f64::consts::PI * 1.5 + dfact_ratio_cheb1(p.k), Box::new(move |x: f64| 1.0 + x * x + x.powi(p.k as i32))),
+            (_, 2) => (std::f64::consts::PI / 2.0 * 1.25 + dfact_ratio_cheb2(p.k), Box::new(move |x: f64| 1.0 + x * x + x.powi(p.k as i32))),
             (0, 0) => ((1..=p.k).fold(1.0, |r, i| r * i as f64), Box::new(move |x: f64| x.powi(p.k as i32))),
             (0, _) => (1.0 / (1.0 - p.a), Box::new(move |x: f64| (p.a * x).exp())),
             (1, 0) => {
@@ -364,6 +398,7 @@ impl Check for Weighted {
         // scale: the size of the weighted integral of |f|, so that tolerances are comparable across degrees
         let scale = match (p.routine, p.kind) {
             (0, 0) => exact_raw.max(1.0),
+            (_, 2) => 1.0,
             (1, 0) => {
                 // int |x|^k e^{-x^2} = Gamma((k+1)/2)
                 let kk = p.k as f64;
@@ -394,7 +429,7 @@ impl Check for Weighted {
             o.viol(&subj, "abscissae-inside-the-domain", format!("{}: {:?}", ctx(), asked.iter().take(5).collect::<Vec<_>>()));
         }
         // reliable: polynomials up to the degree for which two consecutive tabulated rules are exact
-        let reliable = p.kind == 0 || (p.a.abs() <= 1.0 && p.tol >= 1e-9);
+        let reliable = p.kind == 0 || p.kind == 2 || (p.a.abs() <= 1.0 && p.tol >= 1e-9);
         let class = match res {
             Err(m) => {
                 o.viol(&subj, "never-panics", format!("{}: {}", ctx(), m));
@@ -580,7 +615,7 @@ impl Check for Rejections {
 
 pub fn main(mut r: Report) -> ! {
     r.assumptions = vec![
-        "reliable classes (where Ok is required): tanh-sinh: type x half-length <= 4 and tol >= 1e-9; Gauss-Legendre: type x half-length <= 2; Simpson: polynomials of degree <= 5; weighted rules: monomials of degree <= 6 (Laguerre), 8 (Hermite), 10 (Chebyshev) normalised by their absolute moment, and e^{ax} / cos(bx) with |a|,|b| <= 1 for tol >= 1e-9".into(),
+        "reliable classes (where Ok is required): tanh-sinh: type x half-length <= 4 and tol >= 1e-9; Gauss-Legendre: type x half-length <= 2; Simpson: polynomials of degree <= 5; weighted rules: monomials of degree <= 6 (Laguerre), 8 (Hermite), 10 (Chebyshev) normalised by their absolute moment, anchored polynomials 1 + x (+ x^2) + x^d / moment_d up to d = 19 / 20 / 40, and e^{ax} / cos(bx) with |a|,|b| <= 1 for tol >= 1e-9".into(),
         "bound 4 tol + rounding (tanh-sinh below 1e-8: 4 sqrt(tol)); Simpson evaluation count <= 9 + 4 (length^5 max|f''''|/tol)^(1/4) (observed worst coefficient 0.58)".into(),
         "outside the reliable classes only 'Ok implies within bound' is judged (Gauss-Legendre: type x half-length <= 4, tanh-sinh: <= 8), and only for tolerances <= 0.01 x length (the integrand is normalised to max|f| <= 1, so a larger tolerance is not small against the integral itself)".into(),
     ];
